@@ -3,10 +3,22 @@ built in one variant (build.mk).  n = total generated cases per tier (split
 over all cores, seeds VERIF_SEED*1000+i), size = rapidcheck max_size."""
 
 CHECKS = {
+    "C01": {
+        "subs": [
+            {"name": "programs", "bin": "c01_programs", "variant": "asan",
+             "quick": {"n": 4800, "size": 100}, "thorough": {"n": 400000, "size": 160}},
+        ],
+        "assumptions": [
+            "programs use valid arguments only (malformed arguments belong to C09); degenerate geometry is generated on purpose",
+            "judged in the ASan+UBSan release configuration (MANIFOLD_PAR=-1, no MANIFOLD_DEBUG)",
+        ],
+    },
     "C02": {
         "subs": [
             {"name": "lattice", "bin": "c02_lattice", "variant": "asan",
              "quick": {"n": 48000, "size": 100}, "thorough": {"n": 2000000, "size": 150}},
+            {"name": "general", "bin": "c02_general", "variant": "asan",
+             "quick": {"n": 8000, "size": 100}, "thorough": {"n": 300000, "size": 150}},
         ],
         "assumptions": [
             "classification is sampled at generated points (cell centres for lattice programs)",
